@@ -193,6 +193,65 @@ func runC11(c *Ctx) {
 			}
 		}
 	}
+	// every build starts from an EMPTY buffer: buildHTTP installs a fresh bytes.Buffer unconditionally (a buffer kept from
+	// an earlier build would be sent, and shown to auth, in front of the new encoding)
+	{
+		isFresh := func(in ssa.Instruction) bool {
+			st, ok := in.(*ssa.Store)
+			if !ok {
+				return false
+			}
+			if _, okF := fieldAddrOf(st.Addr, clientReqT, "buf"); !okF {
+				return false
+			}
+			okN, _ := allOrigins(st.Val, oCall(-1, "bytes.NewBuffer"), oCall(-1, "bytes.NewBufferString"), func(o Origin) bool { _, isAl := o.V.(*ssa.Alloc); return isAl })
+			return okN
+		}
+		for _, r := range realReturns(f) {
+			if isNilConst(resOf(r, 0)) {
+				continue
+			}
+			c.obI("R11.3", r, "buffer-fresh-for-every-build", !pathExists(f, nil, r, nil, isFresh), "every successful buildHTTP has installed a new, empty body buffer", "a request can be built on the buffer left by an earlier build: its bytes are sent (and shown to auth) twice")
+		}
+	}
+	// what GetBody shows is the buffer's bytes AS THEY ARE (no trimming of a trailing line feed, no re-encoding)
+	if grb := p.FnOpt("rt/client.getRequestBuffer"); grb != nil {
+		for _, r := range realReturns(grb) {
+			if isNilConst(resOf(r, 0)) {
+				continue
+			}
+			okB, bad := allOrigins(resOf(r, 0), oCall(-1, "(*bytes.Buffer).Bytes"), oNil())
+			c.obI("R11.2", r, "buffer-bytes-shown-unaltered", okB, "getRequestBuffer returns r.buf.Bytes() itself", "the bytes shown originate from "+describeOrigin(bad)+": auth sees other bytes than are sent")
+		}
+	}
+	// the content type of a file is sniffed from up to 512 bytes — the window http.DetectContentType considers: a
+	// smaller window changes what binary files announce
+	for _, ci := range callsIn(g, "net/http.DetectContentType") {
+		if sl, ok := ci.Common().Args[0].(*ssa.Slice); ok {
+			n := int64(-1)
+			switch x := sl.X.(type) {
+			case *ssa.MakeSlice:
+				n, _ = constInt(x.Len)
+			case *ssa.Alloc:
+				if pt, isP := x.Type().Underlying().(*types.Pointer); isP {
+					if at, isA := pt.Elem().Underlying().(*types.Array); isA {
+						n = at.Len()
+					}
+				}
+			case *ssa.Slice:
+				if al, isAl := x.X.(*ssa.Alloc); isAl {
+					if pt, isP := al.Type().Underlying().(*types.Pointer); isP {
+						if at, isA := pt.Elem().Underlying().(*types.Array); isA {
+							n = at.Len()
+						}
+					}
+				}
+			}
+			if n >= 0 {
+				c.obI("R11.1", ci, "sniffing-window-is-512", n >= 512, "the sniffing window holds the 512 bytes DetectContentType looks at", fmt.Sprintf("the window is %d bytes", n))
+			}
+		}
+	}
 	// the library promises no replay it cannot deliver: http.Request.GetBody stays what http.NewRequest made it (nil for
 	// a streamed body, so that net/http refuses to re-send on a 307/308 instead of sending an empty or partial buffer)
 	for _, fn := range p.LibFuncs("rt/client") {
